@@ -654,8 +654,16 @@ fn compare_int_float(i: i64, f: f64) -> Ordering {
     if f.is_nan() {
         return Ordering::Less;
     }
-    let i_as_f = i as f64;
-    i_as_f.partial_cmp(&f).unwrap_or(Ordering::Equal)
+    // `i as f64` rounds above 2^53, so compare against the truncated float instead
+    if f >= 9_223_372_036_854_775_808.0 {
+        return Ordering::Less;
+    }
+    if f < -9_223_372_036_854_775_808.0 {
+        return Ordering::Greater;
+    }
+    let truncated = f.trunc();
+    i.cmp(&(truncated as i64))
+        .then_with(|| truncated.partial_cmp(&f).unwrap_or(Ordering::Equal))
 }
 
 fn compare_float_int(f: f64, i: i64) -> Ordering {
@@ -666,36 +674,33 @@ fn compare_bigint_float(big: &BigInt, f: f64) -> Ordering {
     if f.is_nan() {
         return Ordering::Less;
     }
-    let big_as_f = bigint_to_f64(big);
-    big_as_f.partial_cmp(&f).unwrap_or(Ordering::Equal)
+    let big_sign = if big.digits.iter().all(|&d| d == 0) {
+        0
+    } else if big.sign.is_negative() {
+        -1
+    } else {
+        1
+    };
+    let f_sign = if f == 0.0 {
+        0
+    } else if f < 0.0 {
+        -1
+    } else {
+        1
+    };
+    if big_sign != f_sign || big_sign == 0 {
+        return big_sign.cmp(&f_sign);
+    }
+    let magnitude = crate::term::compare_magnitude_float(&big.digits, f.abs());
+    if big_sign < 0 {
+        magnitude.reverse()
+    } else {
+        magnitude
+    }
 }
 
 fn compare_float_bigint(f: f64, big: &BigInt) -> Ordering {
     compare_bigint_float(big, f).reverse()
-}
-
-fn bigint_to_f64(big: &BigInt) -> f64 {
-    let mut result = 0f64;
-    let mut scale = 1.0f64;
-
-    for &byte in big.digits.iter() {
-        let contribution = (byte as f64) * scale;
-        if contribution.is_infinite() || scale.is_infinite() {
-            return if big.sign.is_negative() {
-                f64::NEG_INFINITY
-            } else {
-                f64::INFINITY
-            };
-        }
-        result += contribution;
-        scale *= 256.0;
-    }
-
-    if big.sign.is_negative() {
-        -result
-    } else {
-        result
-    }
 }
 
 fn compare_owned_term_lists(a: &[OwnedTerm], b: &[OwnedTerm]) -> Ordering {
